@@ -87,6 +87,33 @@ fn scenarios(dm: &str) -> Vec<Scenario> {
         };
         v.push(sc("erroring-expression", n, c, exp));
     }
+    // delays that are legal in form but extreme in size: "now + delay" leaves the range of the calendar
+    for (n, c) in [
+        ("huge-days", r##"<send event="x" delay="100000000000d"/>"##),
+        ("huge-days-expr", r##"<send event="x" delayexpr="'9999999999999999d'"/>"##),
+        ("huge-ms", r##"<send event="x" delay="9223372036854775807ms"/>"##),
+        ("beyond-i64-ms", r##"<send event="x" delay="99999999999999999999999999ms"/>"##),
+        ("tiny-fraction", r##"<send event="x" delay="0.0000001ms"/>"##),
+        ("huge-with-id-then-cancel", r##"<send event="x" id="far" delay="200000000000d"/><cancel sendid="far"/>"##),
+    ] {
+        v.push(sc("extreme-delay", n, c, Expect::NoCrash));
+    }
+    // several attributes of one <send> naming the same variable (in rfsm-expression a variable evaluates to the
+    // stored value itself, so the platform meets the same lock twice if it keeps one attribute's value locked)
+    for (n, c) in [
+        ("target-and-type", r##"<send event="x" targetexpr="tv" typeexpr="tv"/>"##),
+        ("event-and-target", r##"<send eventexpr="tv" targetexpr="tv"/>"##),
+        ("event-and-type", r##"<send eventexpr="ev" typeexpr="ev"/>"##),
+        ("target-and-delay", r##"<send event="x" targetexpr="tv" delayexpr="tv"/>"##),
+        ("target-and-namelist", r##"<send event="x" targetexpr="tv" namelist="tv"/>"##),
+        ("target-and-param", r##"<send event="x" targetexpr="tv"><param name="p" expr="tv"/></send>"##),
+        ("target-and-content", r##"<send event="x" targetexpr="tv"><content expr="tv"/></send>"##),
+        ("event-and-param", r##"<send eventexpr="ev"><param name="p" expr="ev"/><param name="q" expr="ev"/></send>"##),
+        ("event-and-idlocation", r##"<send eventexpr="ev" idlocation="ev"/>"##),
+        ("cancel-by-variable-twice", r##"<send event="x" id="x" delay="1s"/><cancel sendidexpr="ev"/><cancel sendidexpr="ev"/>"##),
+    ] {
+        v.push(sc("aliased-send-arguments", n, c, Expect::NoCrash));
+    }
     v.push(sc("cancel-unknown", "literal", r##"<cancel sendid="never-sent"/>"##, Expect::NoCrash));
     v.push(sc("cancel-unknown", "expr-error", r##"<cancel sendidexpr="nosuch_variable"/>"##, Expect::NoCrash));
     // transitions with odd guards: evaluated during selection
@@ -168,7 +195,7 @@ fn doc_placed(dm: &str, s: &Scenario, placement: usize) -> String {
         let (onexit_a, onentry_b) = if placement == 2 { (format!("<onexit>{}</onexit>", wrapped), String::new()) } else { (String::new(), format!("<onentry>{}</onentry>", wrapped)) };
         return format!(
             r##"<scxml xmlns="http://www.w3.org/2005/07/scxml" version="1.0" datamodel="{dm}" initial="top">
- <datamodel><data id="v" expr="1"/></datamodel>
+ <datamodel><data id="v" expr="1"/><data id="tv" expr="'#_internal'"/><data id="ev" expr="'x'"/></datamodel>
  <state id="top" initial="a">
   {handlers}
   <transition event="*"><script>mark('other', _event.name)</script></transition>
@@ -186,7 +213,7 @@ fn doc_placed(dm: &str, s: &Scenario, placement: usize) -> String {
     }
     format!(
         r##"<scxml xmlns="http://www.w3.org/2005/07/scxml" version="1.0" datamodel="{dm}" initial="a">
- <datamodel><data id="v" expr="1"/></datamodel>
+ <datamodel><data id="v" expr="1"/><data id="tv" expr="'#_internal'"/><data id="ev" expr="'x'"/></datamodel>
  <state id="a">
   <transition event="go">
    <script>mark('go-begin')</script>
